@@ -56,6 +56,7 @@ func rulesC07(c *Ctx) {
 	bindNonNilRule(c, "C07.bindnil")
 	valueTextC07(c)
 	regexKindC07(c, tt)
+	paramNameC07(c)
 	s := p.newSCCP()
 	// ---- kinds ----
 	c.Rule("C07.kinds", "every kind of bound value maps to exactly one fixed token (name->IDENT, string->STRING, regex->REGEX, float->NUMBER, integer->INTEGER, duration->DURATIONVAL, boolean->TRUE/FALSE by value, error->BOUNDPARAM), extracted from TokenType by constant propagation: the token never depends on the value's text, so a value cannot choose how it is lexed")
@@ -626,4 +627,62 @@ func callsDirectly(f, callee *ssa.Function) bool {
 		}
 	}
 	return false
+}
+
+// paramNameC07: the name a placeholder is looked up under is its text minus
+// exactly one leading `$`.
+func paramNameC07(c *Ctx) {
+	p := c.P
+	c.Rule("C07.name", "every lookup in the parser's parameter map uses as key the placeholder's literal with exactly one leading `$` removed (strings.TrimPrefix(lit, \"$\") or lit[1:]): a helper that strips a run of `$` (TrimLeft, Trim) looks `$\"$v\"` up as v, so an unbound placeholder is substituted with another parameter's value")
+	n := 0
+	for _, f := range p.allSSAFuncs() {
+		if f.Signature.Recv() == nil || !strings.HasSuffix(f.Signature.Recv().Type().String(), ".Parser") {
+			continue
+		}
+		for _, b := range f.Blocks {
+			for _, in := range b.Instrs {
+				lk, ok := in.(*ssa.Lookup)
+				if !ok {
+					continue
+				}
+				if _, fld, ok := fieldRef(lk.X); !ok || fld != "params" {
+					continue
+				}
+				n++
+				key := fmt.Sprintf("%s: parameter lookup #%d", ssaFuncName(f), n)
+				switch x := lk.Index.(type) {
+				case *ssa.Call:
+					cal := x.Call.StaticCallee()
+					name := ""
+					if cal != nil {
+						name = cal.String()
+					}
+					cut := ""
+					if len(x.Call.Args) == 2 {
+						if k, ok := x.Call.Args[1].(*ssa.Const); ok && k.Value != nil && k.Value.Kind() == constant.String {
+							cut = constant.StringVal(k.Value)
+						}
+					}
+					switch {
+					case name == "strings.TrimPrefix" && cut == "$":
+						c.OK("C07.name", key, lk.Pos(), "TrimPrefix(lit, \"$\")")
+					case name == "strings.TrimLeft" || name == "strings.Trim" || name == "strings.TrimLeftFunc" || name == "strings.ReplaceAll" || name == "strings.Replace":
+						c.Bad("C07.name", key, lk.Pos(), "the key is computed by "+name+": more than the one leading `$` can be removed, so a placeholder whose own name starts with `$` is looked up under another name")
+					default:
+						c.Unk("C07.name", key, lk.Pos(), "the key is computed by a function this rule does not classify")
+					}
+				case *ssa.Slice:
+					lo, okLo := x.Low.(*ssa.Const)
+					if x.High == nil && okLo && lo.Value != nil && lo.Value.String() == "1" {
+						c.OK("C07.name", key, lk.Pos(), "lit[1:]")
+					} else {
+						c.Unk("C07.name", key, lk.Pos(), "the key is a slice of the literal other than [1:]")
+					}
+				default:
+					c.Unk("C07.name", key, lk.Pos(), "the key is not computed from the literal in a recognised way")
+				}
+			}
+		}
+	}
+	c.Floor("C07.name", n, 1)
 }
